@@ -131,28 +131,37 @@ package evaluator
 
 // ---- C13: conversions report failure through the globals err / errmsg, never by a panic ----
 
-// The error globals are set through these two helpers (which look the globals up in the outermost scope).
+// The error globals are reported by REBINDING err / errmsg to fresh values: basic value cells are never written in
+// place (C09: a variable assigned from err keeps the value it was given).
+//@ func globalErr(scope *scope, isErr bool, msg string) ()
+//@   props C09 C13
+//@   requires scope != nil && bound(scope, "err") && bound(scope, "errmsg")
+//@   ensures[C13 err-globals-set] ncalls("(*scope).update") == 2 && callarg("(*scope).update", 1, 1).(string) == "err" && is(callarg("(*scope).update", 1, 2), *boolVal) && callarg("(*scope).update", 1, 2).(*boolVal).V == isErr && callarg("(*scope).update", 2, 1).(string) == "errmsg" && is(callarg("(*scope).update", 2, 2), *stringVal) && callarg("(*scope).update", 2, 2).(*stringVal).V == msg
+//@   ensures[C09 fresh-values] fresh(callarg("(*scope).update", 1, 2)) && fresh(callarg("(*scope).update", 2, 2))
+//@   modifies owned scope.values
+//@   panics
+
 //@ func resetGlobalErr(scope *scope) ()
-//@   noverify sets err = false, errmsg = ""
-//@   modifies class evaluator.boolVal.V, class evaluator.stringVal.V, class evaluator.stringVal.runeSlice
+//@   noverify globalErr(scope, false, "")
+//@   modifies owned scope.values
 
 //@ func setGlobalErr(scope *scope, msg string) ()
-//@   noverify sets err = true, errmsg = msg
-//@   modifies class evaluator.boolVal.V, class evaluator.stringVal.V, class evaluator.stringVal.runeSlice
+//@   noverify globalErr(scope, true, msg)
+//@   modifies owned scope.values
 
 //@ func str2numFunc(scope *scope, args []value) (r value, err error)
 //@   props C13
 //@   requires strArg(args, 0)
 //@   ensures[C13 str2num-value] err == nil && is(r, *numVal) && fresh(r) && ncalls("ParseFloat") == 1 && same(r.(*numVal).V, callres("ParseFloat", 1, 0).(float64)) && callarg("ParseFloat", 1, 1).(int) == 64
 //@   ensures[C13 str2num-err-protocol] ncalls("resetGlobalErr") == 1 && (ncalls("setGlobalErr") == 1 <==> callres("ParseFloat", 1, 1) != nil) && ncalls("setGlobalErr") <= 1
-//@   modifies class evaluator.boolVal.V, class evaluator.stringVal.V, class evaluator.stringVal.runeSlice
+//@   modifies owned scope.values
 
 //@ func str2boolFunc(scope *scope, args []value) (r value, err error)
 //@   props C13
 //@   requires strArg(args, 0)
 //@   ensures[C13 str2bool-value] err == nil && is(r, *boolVal) && fresh(r) && ncalls("ParseBool") == 1 && r.(*boolVal).V == callres("ParseBool", 1, 0).(bool)
 //@   ensures[C13 str2bool-err-protocol] ncalls("resetGlobalErr") == 1 && (ncalls("setGlobalErr") == 1 <==> callres("ParseBool", 1, 1) != nil) && ncalls("setGlobalErr") <= 1
-//@   modifies class evaluator.boolVal.V, class evaluator.stringVal.V, class evaluator.stringVal.runeSlice
+//@   modifies owned scope.values
 
 //@ func typeofFunc(_ *scope, args []value) (r value, err error)
 //@   props C13
